@@ -16,6 +16,9 @@ def run(rep, tier):
     common.rule_purity(rep, PURE_SET)
     rep.floor("A1-purity", 46, "46 functions in the pure set")
 
+    from .c05 import detached_copy_table
+    detached_copy_table(rep, "A1-new-detached")
+
     # A2: concrete tier constructors
     tt = idx.cls("TextgridTier")
     n = 0
